@@ -168,8 +168,12 @@ def m_finals(s, n):
     return out + m_cache_code(s["cache"]) + [s["ndone"]]
 
 
-def enum_maximal(prog, n, limit=None):
-    """all maximal visible schedules of n threads (DFS); yields lists of [t, o]"""
+ENUM_CAP = 40000
+
+
+def enum_maximal(prog, n, limit=ENUM_CAP):
+    """all maximal visible schedules of n threads (DFS), at most `limit` of them (a broken program can have
+    astronomically many); returns lists of [t, o]"""
     count = [0]
     out = []
 
